@@ -1,0 +1,43 @@
+//go:build verif
+
+package font
+
+import "github.com/go-text/typesetting/font/opentype/tables"
+
+// Verification hooks (property C11, second part): the constructors used by ProcessCmap, so that a harness
+// drives the subtables through the same sanitizing steps as a font does.
+
+// VerifNewCmap12 is newCmap12 on (start, end, startGlyph) groups.
+func VerifNewCmap12(groups [][3]uint32) Cmap {
+	return newCmap12(tables.CmapSubtable12{Groups: verifGroups(groups)})
+}
+
+// VerifNewCmap13 is newCmap13 on (start, end, glyph) groups.
+func VerifNewCmap13(groups [][3]uint32) Cmap {
+	return newCmap13(tables.CmapSubtable13{Groups: verifGroups(groups)})
+}
+
+// VerifSanitizeCmap4 is sanitizeCmap4 ([cm] must come from VerifCmap4 or VerifNewCmap4).
+func VerifSanitizeCmap4(cm Cmap) Cmap { return sanitizeCmap4(cm.(cmap4)) }
+
+// VerifNewCmap10 is newCmap10.
+func VerifNewCmap10(start uint32, entries []uint16) Cmap {
+	ga := make([]tables.GlyphID, len(entries))
+	for i, g := range entries {
+		ga[i] = tables.GlyphID(g)
+	}
+	return newCmap10(tables.CmapSubtable10{StartCharCode: start, GlyphIdArray: ga})
+}
+
+// VerifInnerCmap returns the cmap wrapped by a legacy remaper (or [cm] itself).
+func VerifInnerCmap(cm Cmap) Cmap {
+	switch cm := cm.(type) {
+	case remaperSymbol:
+		return cm.Cmap
+	case remaperPUASimp:
+		return cm.Cmap
+	case remaperPUATrad:
+		return cm.Cmap
+	}
+	return cm
+}
